@@ -843,19 +843,34 @@ class EvolveAppTask(BaseEvolutionTask):
             elif node_batch_type == graph.NODE_TYPE_EVOLUTION:
                 # This batch applies new evolutions. Store the list of tasks
                 # and their corresponding evolutions.
+                #
+                # A batch executes its evolutions one task at a time. If the
+                # order puts another task's evolution in-between two
+                # evolutions of the same task (one of them depends on it),
+                # those two can't share a batch. Everything from the second
+                # one on goes into further batches.
                 task_evolutions = OrderedDict()
+                extra_task_evolutions = []
+                prev_task = None
 
                 for node in batch_nodes:
                     task = node.state['task']
                     evolution = node.state['evolution']
 
+                    if task is not prev_task and task in task_evolutions:
+                        extra_task_evolutions.append(task_evolutions)
+                        task_evolutions = OrderedDict()
+
                     task_info = task_evolutions.setdefault(task, {})
                     task_info.setdefault('evolutions', []).append(
                         evolution.label)
+                    prev_task = task
+
+                extra_task_evolutions.append(task_evolutions)
 
                 batch_type = UpgradeMethod.EVOLUTIONS
                 batch_info = {
-                    'task_evolutions': task_evolutions,
+                    'task_evolutions': extra_task_evolutions.pop(0),
                 }
             elif node_batch_type == graph.NODE_TYPE_MIGRATION:
                 # This batch applies new migrations. Store the plan and
@@ -904,6 +919,15 @@ class EvolveAppTask(BaseEvolutionTask):
 
                 prev_batch_info = batch_info
                 prev_batch_type = batch_type
+
+            if node_batch_type == graph.NODE_TYPE_EVOLUTION:
+                # Add the batches holding the rest of an interleaved order.
+                for task_evolutions in extra_task_evolutions:
+                    prev_batch_info = {
+                        'task_evolutions': task_evolutions,
+                        'type': UpgradeMethod.EVOLUTIONS,
+                    }
+                    batches.append(prev_batch_info)
 
         # Now let's perform one last pass, this time through the new
         # consolidated batches. That information will be used to generate
